@@ -43,7 +43,7 @@ def gen_cases(ctx):
                     td["with-resets"] = True
                 cases.append({"kind": "catalogue", "inpkg": inpkg, "genseed": ctx.seed * 31 + inpkg, "idx": ch, "template": "matryer", "formatter": "goimports",
                               "placement": "inpkg-test" if inpkg else rng.choice(["outpkg", "xtest"]), "td": td, "gomod": "plain", "srckind": "ordinary",
-                              "drvseed": rng.randrange(1, 1 << 20), "td_level": rng.choice(["root", "iface"])})
+                              "drvseed": rng.randrange(1, 1 << 20), "td_level": ["root", "iface", "recparent"][ci % 3]})
     for k in range(6 if ctx.tier == "quick" else 40):
         inpkg = k % 2 == 0
         cases.append({"kind": "random" if k % 3 else "catalogue", "inpkg": inpkg, "genseed": rng.randrange(1 << 30) if k % 3 else ctx.seed * 31 + inpkg,
